@@ -4,8 +4,9 @@ from ..graph import Graph
 from ..expr import access_path, path_str, reaching_defs, norm_cond, origins, leaves, defs_in_node
 from ..linear import linear, relation, fmt, rel_str
 from ..symb import feasible_reach, feasible_armed_reach
-from ..charclass import byteset, describe, CTYPE, bytevalue
-from .common import strip_casts, short, comparison, once_init
+from ..charclass import byteset, describe, CTYPE, bytevalue, _truth as byte_truth
+from ..inteval import ieval
+from .common import strip_casts, short, comparison, once_init, iteration_starts
 from . import c14
 from .c07 import _select_kind
 
@@ -396,6 +397,167 @@ def rule_r6(ck, prog, rule='C15.R6', cls='context::propagation::CompositePropaga
         return strip_casts(f, r.n['e']).get('id') == ctxp['id'] and not after_call
     ok = bool(rets) and all(ret_ok(r) for r in rets) and any(any(f.nodes[i]['k'] == 'ref' and f.nodes[i].get('id') in accs for i in f.subtree(r.n['e'])) for r in rets)
     ck.verdict(ok, rule, f, 'extract-returns-accumulator', rets[0].n if rets else None, 'the accumulated context is returned' if ok else 'Extract does not return the accumulated context')
+    # empty propagator list: on the paths on which no propagator runs, what is returned is the caller's context (not a blank one)
+    no_call = g.reachable_from(g.entry, avoid=ex)
+    env0 = {'this.propagators_.size()': 0}
+    bad0 = None
+    for r in rets:
+        if r.id not in no_call:
+            continue
+        e = r.n['e']
+        hops = 0
+        while e is not None and hops < 8:
+            hops += 1
+            n = f.nodes[e]
+            if n['k'] == 'cast' or (n['k'] == 'construct' and len(n.get('args', [])) == 1):
+                e = n['e'] if n['k'] == 'cast' else n['args'][0]
+                continue
+            if n['k'] == 'cond':
+                c = ieval(g, rd, f, n['cnd'], r.ctx, env0)
+                if c is None:
+                    e = None
+                    break
+                e = n['a'] if c else n['b']
+                continue
+            break
+        leaf = f.nodes[e] if e is not None else None
+        if leaf is None or leaf['k'] != 'ref':
+            bad0 = bad0 or (r, None)
+            continue
+        if leaf.get('id') == ctxp['id']:
+            continue
+        # an accumulator: every definition of it other than the propagator results must be derived from the parameter
+        other = []
+        for p in g.points:
+            if p.n is None or p.f is not f:
+                continue
+            for (vid, strong, vx) in defs_in_node(f, p.n):
+                if vid == leaf.get('id') and strong and not any(x.n['i'] in f.subtree(p.n['i']) for x in ex):
+                    other.append((p, vx))
+        from_ctx = other and all(vx is not None and vx >= 0 and any(f.nodes[i]['k'] == 'ref' and f.nodes[i].get('id') == ctxp['id'] for i in list(f.subtree(vx)) + [vx]) for (p, vx) in other)
+        if not from_ctx:
+            bad0 = (r, leaf.get('name'))
+    if bad0 is not None and bad0[1] is None:
+        ck.inconclusive(rule, f, 'extract-empty-list-returns-caller-context', bad0[0].n, 'what is returned when no propagator is configured does not fold')
+    else:
+        ck.verdict(bad0 is None, rule, f, 'extract-empty-list-returns-caller-context', bad0[0].n if bad0 else None,
+                   'with no propagator configured the caller\'s context is returned' if bad0 is None else
+                   'with an empty propagator list Extract returns %s, a blank context: everything the caller\'s context held (baggage, active span) is lost' % bad0[1])
+
+
+PRINTABLE = frozenset(range(0x20, 0x7f))
+
+
+def rule_r7(ck, prog, rule='C15.R7', cls='baggage::Baggage'):
+    """The validity class of decoded keys and values, as an exhaustive byte table: the character predicate every key / value
+    must pass accepts exactly the printable ASCII bytes 0x20..0x7E (with `char` signed, as on the configured platform).
+    The predicate is found by role: a static bool member of Baggage over one string_view whose body loops over its characters."""
+    cnt = 0
+    for f in sorted(prog.funcs.values(), key=lambda x: x.qn):
+        if not strip_targs(f.qn).rsplit('::', 1)[0].endswith(cls) or f.d.get('lambda') or not f.blocks:
+            continue
+        if (f.d.get('ret') or '') != 'bool' or len(f.params) != 1 or 'string_view' not in f.params[0]['t']:
+            continue
+        loops = [n for n in f.nodes if n['k'] in ('forrange', 'for', 'while')]
+        if len(loops) != 1:
+            continue
+        lp = loops[0]
+        cnt += 1
+        subj = _loop_subject(f, lp)
+        g = Graph(prog, f, inline=None, sync_lambdas=False)
+        starts = iteration_starts(g, f, lp)
+        rets = g.returns()
+        rej = [r for r in rets if strip_casts(f, r.n['e'])['k'] == 'lit' and strip_casts(f, r.n['e']).get('v') == 0]
+        body = set(f.subtree(lp['body']))
+        if len(starts) != 1 or not rej or not all(r.n['i'] in body for r in rej):
+            ck.inconclusive(rule, f, 'validity-class-is-printable-ascii', None, 'shape of the character loop not understood')
+            continue
+        conds = [i for i in body if (f.nodes[i]['k'] == 'binop' and f.nodes[i]['op'] in ('<', '>', '<=', '>=', '==', '!=', '&&', '||')) or
+                 (f.nodes[i]['k'] == 'unop' and f.nodes[i]['op'] == '!') or (f.nodes[i]['k'] == 'call' and strip_targs(f.nodes[i].get('c', '')).rsplit('::', 1)[-1] in CTYPE)]
+        acc, unknown = set(), []
+        nxt = [q for (q, _l) in starts[0].succ] or [starts[0]]
+        for b in range(256):
+            pins = {}
+            for i in conds:
+                t = byte_truth(f, i, subj, b)
+                if t is not None:
+                    pins[i] = t
+            can_rej = feasible_reach(g, [starts[0]], rej, pins=pins) is not None
+            # the byte is accepted when the iteration can complete: the loop header / the exit is reachable avoiding the rejecting returns
+            can_acc = feasible_reach(g, [starts[0]], [g.exit], avoid=rej, pins=pins) is not None
+            if can_rej and can_acc:
+                unknown.append(b)
+            elif can_acc:
+                acc.add(b)
+        if unknown:
+            ck.inconclusive(rule, f, 'validity-class-is-printable-ascii', None, 'bytes %s are neither definitely accepted nor rejected' % describe(frozenset(unknown)))
+            continue
+        ok = frozenset(acc) == PRINTABLE
+        ck.verdict(ok, rule, f, 'validity-class-is-printable-ascii', None,
+                   'accepts exactly %s (all 256 bytes evaluated)' % describe(PRINTABLE) if ok else
+                   'keys / values may contain %s; valid baggage text is %s: %s' % (describe(frozenset(acc)), describe(PRINTABLE),
+                   ('bytes %s are accepted although they are not printable ASCII' % describe(frozenset(acc) - PRINTABLE)) if frozenset(acc) - PRINTABLE else
+                   ('printable bytes %s are refused' % describe(PRINTABLE - frozenset(acc)))))
+    if cnt == 0:
+        raise AnalysisBroken('C15.R7: no character-class predicate found in %s' % cls)
+
+
+def rule_r8(ck, prog, rule='C15.R8', fn='baggage::Baggage::FromHeader'):
+    """Per-member state of the header parser is fresh in every iteration: a local that a call inside the member loop may set
+    through an out-parameter (the decode error flag) and that guards the insertion is (re)initialised on every path from the start
+    of the iteration to its first mention - otherwise one malformed member decides the fate of every later, well-formed one."""
+    f = prog.function(fn)
+    g = Graph(prog, f, inline=None, sync_lambdas=False)
+    loops = [n for n in f.nodes if n['k'] in ('while', 'for', 'forrange', 'do')]
+    loops = [l for l in loops if any(f.nodes[i]['k'] == 'call' and strip_targs(f.nodes[i].get('c', '')).endswith('::AddEntry') for i in f.subtree(l['body']))]
+    if len(loops) != 1:
+        raise AnalysisBroken('C15.R8: member loop of %s not found' % fn)
+    lp = loops[0]
+    body = set(f.subtree(lp['body']))
+    starts = iteration_starts(g, f, lp)
+    if len(starts) > 1 and lp.get('cnd') is not None:
+        # `a && b`: the true edge of `a` leads into the condition itself; the iteration starts where the body is entered
+        cset = set(f.subtree(lp['cnd'])) | {lp['cnd']}
+        inner = [q for q in starts if q.n is not None and q.f is f and q.n['i'] in body]
+        starts = inner or [q for q in starts if q.n is None or q.n['i'] not in cset]
+        if len(starts) > 1:
+            first = [q for q in starts if all(q.id in g.reachable_from([o]) or o is q for o in starts) is False]
+            starts = [q for q in starts if all(o is q or o.id in g.reachable_from([q]) for o in starts)][:1] or starts
+    if len(starts) != 1:
+        ck.inconclusive(rule, f, 'per-member-state-fresh', None, 'iteration start not found')
+        return
+    # locals written through out-parameters by calls in the body
+    cand = {}
+    for i in sorted(body):
+        n = f.nodes[i]
+        if n['k'] not in ('call', 'construct'):
+            continue
+        for (vid, strong, vx) in defs_in_node(f, n):
+            if not strong:
+                cand.setdefault(vid, []).append(i)
+    decls = {d['id']: d for n in f.nodes if n['k'] == 'declstmt' for d in n['decls']}
+    found = 0
+    for vid, sites in sorted(cand.items()):
+        d = decls.get(vid)
+        if d is None or d.get('t') != 'bool':
+            continue
+        mentions = [p for p in g.points if p.f is f and p.n is not None and p.n['i'] in body and p.n['k'] == 'ref' and p.n.get('id') == vid]
+        strong = [p for p in g.points if p.f is f and p.n is not None and p.n['i'] in body and
+                  any(v == vid and st and not (p.n['k'] == 'binop' and p.n['op'] != '=') for (v, st, _x) in defs_in_node(f, p.n)) and
+                  not (p.n['k'] == 'declstmt' and any(dd['id'] == vid and (dd.get('static') or dd.get('tls')) for dd in p.n['decls']))]
+        if not mentions:
+            continue
+        found += 1
+        # a mention that is the left side of a (re)initialising assignment is the definition itself
+        lhs_of_def = set()
+        for p in strong:
+            if p.n['k'] == 'binop':
+                lhs_of_def |= set(f.subtree(p.n['lhs'])) | {p.n['lhs']}
+        bad = [m for m in mentions if m.n['i'] not in lhs_of_def and not g.must_pass(m, strong, src=starts[0])]
+        ck.verdict(not bad, rule, f, 'per-member-state-fresh:%s' % d['name'], bad[0].n if bad else None,
+                   '%s is initialised in every iteration before it is used' % d['name'] if not bad else
+                   'the flag %s, which calls in the member loop set through an out-parameter and which guards the insertion, is not re-initialised at the start of an iteration: once one member fails to decode every later well-formed member is dropped as well' % d['name'])
+    return found
 
 
 def run(ck, prog):
@@ -406,7 +568,9 @@ def run(ck, prog):
     ck.doc('C15.R5', 'BaggagePropagator::Extract installs only a non-empty parsed baggage, into the context it was given', 3)
     ck.doc('C14.R5', '(shared rule, see C14) the tokenizer hands out the member parts untransformed', 1)
     ck.doc('C14.R6', '(shared rule, see C14) Trim removes exactly the whitespace class on both edges; the right index cannot step below zero', 3)
-    ck.doc('C15.R6', 'CompositePropagator: Inject calls all; Extract threads the context on every feasible path', 3)
+    ck.doc('C15.R6', 'CompositePropagator: Inject calls all; Extract threads the context on every feasible path; an empty list returns the caller\'s context', 4)
+    ck.doc('C15.R7', 'validity class of decoded keys/values is exactly printable ASCII 0x20..0x7E (all 256 bytes evaluated)', 1)
+    ck.doc('C15.R8', 'per-member parser state (the decode error flag) is re-initialised in every iteration of the member loop', 1)
     with ck.canary('C15.R6'):
         rule_r6(ck, prog, cls='canary::c15::BadComposite')
     c14.rule_r1(ck, prog, cls='baggage::Baggage', rule='C15.R1')
@@ -415,6 +579,8 @@ def run(ck, prog):
     rule_r4(ck, prog)
     rule_r5(ck, prog)
     rule_r6(ck, prog)
+    rule_r7(ck, prog)
+    rule_r8(ck, prog)
     c14.rule_r2_validated_is_stored(ck, prog, cls='baggage::Baggage', rule='C15.R3', names=('FromHeader',))
     c14.rule_r5_tokenizer(ck, prog, rule='C14.R5')
     c14.rule_r6(ck, prog, rule='C14.R6')
